@@ -225,7 +225,7 @@ func findFunctionCallViolation(
 		// Check if it's a method call (obj.Method)
 		typeInfo := util.ExtractTypeInfo(ctx.pass.TypesInfo.TypeOf(fun.X))
 		// A method promoted through an embedded field belongs to the embedded type, not to the type of fun.X
-		if sel := ctx.pass.TypesInfo.Selections[fun]; sel != nil && sel.Kind() == types.MethodVal && len(sel.Index()) > 1 {
+		if sel := ctx.pass.TypesInfo.Selections[fun]; sel != nil && (sel.Kind() == types.MethodVal || sel.Kind() == types.MethodExpr) && len(sel.Index()) > 1 {
 			if sig, ok := sel.Obj().Type().(*types.Signature); ok && sig.Recv() != nil {
 				typeInfo = util.ExtractTypeInfo(sig.Recv().Type())
 			}
